@@ -8,6 +8,7 @@ import (
 	"os"
 	"path/filepath"
 	"sort"
+	"strings"
 	"testing"
 	"time"
 
@@ -121,6 +122,13 @@ func scenarioC14(t *testing.T, root string, seed uint64, replay *c14Params, tier
 			viol = &vcViolation{Class: cls, Detail: detail, Replay: map[string]interface{}{"params": q}}
 		}
 	}
+	type touch struct {
+		idx     int
+		isNew   bool
+		retStep int
+	}
+	var touches []touch
+	var cleanOps []verifsim.OpMeta
 	type info struct {
 		path      string
 		protected bool // op on it completed before clean started
@@ -180,6 +188,9 @@ func scenarioC14(t *testing.T, root string, seed uint64, replay *c14Params, tier
 				tg := c14Target(e.Name, e.Tree.Outs, "cur-"+e.Name)
 				c.Store(tg, e.key(), e.Tree.Outs)
 				newInfos[op.Entry].touched = true
+				if phase == 2 {
+					touches = append(touches, touch{op.Entry, true, verifsim.Step()})
+				}
 				if phase == 1 {
 					newInfos[op.Entry].protected = true
 				}
@@ -190,6 +201,9 @@ func scenarioC14(t *testing.T, root string, seed uint64, replay *c14Params, tier
 				hit := c.Retrieve(tg, e.key(), e.Tree.Outs)
 				if hit {
 					infos[op.Entry].touched = true
+					if phase == 2 {
+						touches = append(touches, touch{op.Entry, false, verifsim.Step()})
+					}
 					got := snapTree(env.outDir(tg), e.Tree.Outs)
 					if !sameSnap(got, modelTree(e.Tree)) {
 						fail("partial-retrieve-during-clean", fmt.Sprintf("Retrieve of %s returned a hit with %v, stored was %v", infos[op.Entry].path, got, modelTree(e.Tree)), nil)
@@ -255,7 +269,14 @@ func scenarioC14(t *testing.T, root string, seed uint64, replay *c14Params, tier
 				}
 			}})
 		}
+		verifsim.KeepOpLog = true
 		s.RunTasks(tasks)
+		verifsim.KeepOpLog = false
+		for _, m := range verifsim.OpLogMeta() {
+			if m.Task == "clean" {
+				cleanOps = append(cleanOps, m)
+			}
+		}
 		res.Stats["sched_steps"] += int64(s.Steps)
 		res.Stats["choices2plus"] += int64(s.Choices2plus)
 	})
@@ -285,6 +306,35 @@ func scenarioC14(t *testing.T, root string, seed uint64, replay *c14Params, tier
 		if exists && !in.protected && !in.touched {
 			remainUnprot += dirSize(in.path)
 			nUnprot++
+		}
+	}
+	// (1b) an entry whose Store / successful Retrieve by this process had RETURNED while the cleaner was
+	// still busy with other entries is protected too: the cleaner examines its mark only after that.
+	// Evidence from the recorded history: the cleaner's rename of the entry comes after the operation's
+	// return step, and between the two the cleaner performed a filesystem operation on some OTHER path
+	// (so its decision about this entry had not been taken when the operation returned).
+	if viol == nil {
+		for _, tc := range touches {
+			in := infos
+			if tc.isNew {
+				in = newInfos
+			}
+			path := in[tc.idx].path
+			renameStep := -1
+			for _, m := range cleanOps {
+				if m.Op == "rename" && m.Path == path+"=" {
+					renameStep = m.Step
+				}
+			}
+			if renameStep < 0 || renameStep <= tc.retStep {
+				continue
+			}
+			for _, m := range cleanOps {
+				if m.Step > tc.retStep && m.Step < renameStep && !strings.HasPrefix(m.Path, path) {
+					fail("removed-entry-used-during-clean", fmt.Sprintf("entry %s was stored/retrieved by this process (operation returned at step %d); the cleaner then worked on %s (step %d) and only afterwards evicted that entry (step %d)", path, tc.retStep, m.Path, m.Step, renameStep), rechoices)
+					break
+				}
+			}
 		}
 	}
 	// (2) whatever is still there under a key path is complete
